@@ -26,20 +26,20 @@ CLAIMS = {
    note=TB+"Daemon half: index/size checks of the per-ring messages and vmm_va_to_gpa under Kani's overflow checks (c14_u_*, c13_u_*); the memory-table and log-base handlers need memory() and are not covered. Body <= 72 bytes, <= 2 regions, config payload <= 8 bytes, <= 3 descriptors; the 33-descriptor case is outside.",
    design="4/C05"),
  "C06": dict(
-   text=E_FE+": every reply-bearing and acknowledged operation returns Ok only if the bytes are a reply to that very request (REPLY flag, same code, valid header and body, descriptors exactly when defined) and never fabricates a value; plus recv_body segmentation harnesses. ",
-   note=TB+"Backend-to-frontend proxy acks (unit level) and the FrontendReqHandler server (E level, arbitrary bodies/descriptors) are included; the GPU proxy's reply parsing is NOT covered (its error conversion io::Error::other(format!) exhausts CBMC's memory and cannot be stubbed). Reply control words are concrete classes at E level.",
+   text=E_FE+": every reply-bearing and acknowledged operation returns Ok only if the bytes are a reply to that very request (REPLY flag, same code, valid header and body, descriptors exactly when defined) and never fabricates a value; plus recv_body segmentation harnesses; U level (c06_u_*): FrontendInternal::is_reply_for / recv_reply<u64> / wait_for_ack / recv_reply_with_files with ALL 96 header bits of the peer's reply symbolic. ",
+   note=TB+"Backend-to-frontend proxy acks (unit level) and the FrontendReqHandler server (E level, arbitrary bodies/descriptors) are included; the GPU proxy's reply parsing is NOT covered (its error conversion io::Error::other(format!) exhausts CBMC's memory and cannot be stubbed). Reply control words are concrete classes at E level and fully symbolic at U level.",
    design="4/C06"),
  "C07": dict(
    text="Frontend ("+E_FE+", full 64-bit cached feature words symbolic, so a gate on a wrong bit is distinguishable): a gated operation writes bytes only if its spec gating bit is set (offered PROTOCOL_FEATURES for the protocol-feature exchange, acked for ring enable, DEVICE_STATE for state transfer), else Err and zero sends. Backend ("+E_BE+"): handler reached only if the gating bit is in the acked words; GET_PROTOCOL_FEATURES reply always carries REPLY_ACK.",
    note=TB+"Histories enter through the symbolic state words (any state a negotiation history can produce is included; the state update itself is C04). Proxy: shared-object / shared-memory requests are refused with nothing written unless the flag is set (e_px_*_gated).",
    design="4/C07"),
  "C08": dict(
-   text="Unit harnesses on the real Endpoint code over a ghost socket with delivery cuts / partial accepts: get_sub_iovs_offset vs a reference (all lengths), recv_header / recv_body / recv_data under 2-3 segment deliveries at representative cut positions and under end-of-stream after c bytes (Disconnected iff c==0, PartialMessage/short otherwise, never blocked), send_message under per-call accept limits and one injected EAGAIN (bytes once, in order, descriptors with byte 0 only). Found and now guards F3 (single-recvmsg body read, 07d4ebc).",
+   text="Unit harnesses on the real Endpoint code over a ghost socket with delivery cuts / partial accepts: get_sub_iovs_offset vs a reference (all lengths), recv_header / recv_body / recv_data under 2-3 segment deliveries at representative cut positions and under end-of-stream after c bytes (Disconnected iff c==0, PartialMessage/short otherwise, never blocked), send_message under per-call accept limits and one injected EAGAIN/EINTR/ENOBUFS (bytes once, in order, descriptors with byte 0 only); E level: the real BackendReqHandler::handle_request with the stream ending 0, 7, 12, 19 bytes into a request (c08_e_*: Disconnected only at offset 0, another error inside the message, handler not reached, nothing written, never blocked). Found and now guards F3 (single-recvmsg body read, 07d4ebc).",
    note=TB+"Cut positions / accept sizes are concrete representatives (symbolic cuts make the resume offsets symbolic and the loops unbounded for CBMC - measured OOM); messages <= 20 bytes; message shapes header, header+body, body; every message type is not enumerated because framing is type-generic.",
    design="4/C08"),
  "C09": dict(
    text="Ghost descriptor table over the E-level backend runs (valid, invalid, over-stuffed requests with 0..=2 descriptors) and the frontend runs: every descriptor installed by recvmsg is either handed to the handler by value exactly once or closed exactly once by the library when handle_request / the frontend call returns; no double close; descriptors lent for transmission (RawFd / &EventFd arguments) are never closed. U-level: handle_vring_fd_request and check_attached_files with 0..=3 files.",
-   note=TB+"Model level: close(2)/OwnedFd::drop are stubs over the ghost table. vhost-user-backend: replacing/clearing a ring's kick/call/err descriptor closes the previous one exactly once (c09_u_vring_fds). Teardown at arbitrary points and >32 descriptors are not covered.",
+   note=TB+"Model level: close(2)/OwnedFd::drop are stubs over the ghost table. vhost-user-backend: replacing/clearing a ring's kick/call/err descriptor closes the previous one exactly once (c09_u_vring_fds at VringState level; the C11 step harnesses for SET_VRING_KICK / GET_VRING_BASE at handler level: the replaced kick descriptor is closed, no installed one is). Code that inspects a received descriptor through a foreign function (getsockopt, fstat, ...) cannot be modelled or stubbed in Kani 0.68: such a change makes the check inconclusive (exit 2), see seeded/C09-a. Teardown at arbitrary points and >32 descriptors are not covered.",
    design="4/C09"),
  "C10": dict(
    text="Reduction to the endpoint lock: every path to the shared socket goes through the handle's Mutex, so another caller can interleave with a transaction only at a socket syscall made while the lock is free. The syscall stubs (raw_sendmsg/raw_recvmsg) of all E-level harnesses of Frontend (every operation), Backend (5 operations) and GpuBackend (send-only operations) try_lock the endpoint at every call and the harness asserts the lock was never free between the first send and the last receive of the call and is free again on return. A second lock() by the same caller would cut all paths and is caught by the per-harness reachability witness (success path reachable).",
@@ -58,12 +58,12 @@ CLAIMS = {
    note=TB+"NOT covered (needs mmap and GuestMemoryAtomic::memory(), which Kani 0.68 cannot compile): the memory object equals the accepted regions, file visibility, atomicity of failed updates, one notification per change, mappings kept in step by SET_MEM_TABLE / ADD_MEM_REG / REM_MEM_REG.",
    design="4/C13"),
  "C14": dict(
-   text="The clauses that do not touch guest memory, on the literal-built daemon handler: SET_VRING_NUM refuses zero / over-maximum sizes and out-of-range indexes (all u32 indexes); SET_VRING_BASE/GET_VRING_BASE round-trip the next-available index and stop the ring; every per-ring message rejects out-of-range indexes (all u32 / u8); SET_FEATURES is accepted iff subset of the offered mask (all 2^128 pairs) and then delivers exactly the bits to the backend and EVENT_IDX to every queue and the backend, enabling all rings iff PROTOCOL_FEATURES is absent; signal_used_queue notifies exactly the most recently installed call descriptor or nothing (3-step symbolic replace/clear history).",
-   note=TB+"NOT covered: SET_VRING_ADDR (translated addresses, used index from guest memory), add_used on the latest memory table (both need memory()); 'an accepted SET_VRING_NUM reaches the queue' (virtio-queue's error type makes the accepting path intractable for CBMC, measured); backend-request-channel flag inheritance; RwLock/Arc backend adapters.",
+   text="The clauses that do not touch guest memory, on the literal-built daemon handler: SET_VRING_NUM refuses zero / over-maximum sizes and out-of-range indexes (all u32 indexes); SET_VRING_BASE/GET_VRING_BASE round-trip the next-available index and stop the ring; every per-ring message rejects out-of-range indexes (all u32 / u8); SET_FEATURES is accepted iff subset of the offered mask (all 2^128 pairs) and then delivers exactly the bits to the backend and EVENT_IDX to every queue and the backend, enabling all rings iff PROTOCOL_FEATURES is absent; signal_used_queue notifies exactly the most recently installed call descriptor or nothing (3-step symbolic replace/clear history); the library's Mutex / RwLock / Arc<Mutex> backend adapters forward every call, argument and result unchanged (c14_u_adapter_*).",
+   note=TB+"NOT covered: SET_VRING_ADDR (translated addresses, used index from guest memory), add_used on the latest memory table (both need memory()); 'an accepted SET_VRING_NUM reaches the queue' (virtio-queue's error type makes the accepting path intractable for CBMC, measured); backend-request-channel flag inheritance.",
    design="4/C14"),
  "C15": dict(
-   text="Bit-exact page arithmetic of the dirty log: AtomicBitmapMmap::mark_dirty/dirty_at over a 4-byte log window with guard bytes, region start 0..=31 pages and length 1..=32 pages (page aligned, fitting the log), write offset and length over ALL usize values, arbitrary initial log contents: each of the 32 bits afterwards == old bit OR (page touched), guards unchanged, loops bounded by unwinding assertions; BitmapMmapRegion (lock-protected shared handle): slice_at + mark_dirty over all usize base/offset/len, run-time replace, absent bitmap is a no-op.",
-   note=TB+"NOT covered: AtomicBitmapMmap::new's acceptance rule and SET_LOG_BASE (need a GuestMemoryRegion / memory()), persistence across memory-table changes, real mmap, lost updates between concurrent writers (fetch_or is assumed atomic; Kani has no threads).",
+   text="Bit-exact page arithmetic of the dirty log: AtomicBitmapMmap::mark_dirty/dirty_at over a 4-byte log window with guard bytes, region start 0..=31 pages and length 1..=32 pages (page aligned, fitting the log), write offset and length over ALL usize values, arbitrary initial log contents: each of the 32 bits afterwards == old bit OR (page touched), guards unchanged, loops bounded by unwinding assertions; BitmapMmapRegion (lock-protected shared handle): slice_at + mark_dirty over all usize base/offset/len, run-time replace, absent bitmap is a no-op; AtomicBitmapMmap::new over a range-only fake region (all 64-bit start/length, log sizes 0..=8 bytes): accepted iff the log has a byte for the region's highest page.",
+   note=TB+"NOT covered: SET_LOG_BASE on the daemon (needs memory()), persistence across memory-table changes, real mmap, lost updates between concurrent writers (fetch_or is assumed atomic; Kani has no threads).",
    design="4/C15"),
  "C17": dict(
    text="Routing: for ALL 64-bit queues-per-thread masks of 1..=3 worker threads, queue q (each of 0..=3 in its own harness) is registered with exactly one worker - the first whose mask contains q - with event id = number of lower set bits; for representative concrete mask configurations (interleaved, overlapping, bits beyond the queue count) the real handle_event on that worker hands the backend that thread id, that event id and a ring slice whose element at the id is queue q. Listener ids: accepted only above num_queues (all 64-bit ids, 1..=6 queues); one iteration of the REAL worker loop run() with a scripted epoll delivers an accepted listener's event exactly once with exactly its id and then stops on the exit event (id num_queues). Found F7 (ids above 65535 truncated to u16: taken for a queue / the exit event; fixed 53f0a5b).",
@@ -104,7 +104,7 @@ m = {
  ],
  "checks": [],
  "not_applicable": [],
- "notes": "Exit codes of every command: 0 held, 1 VIOLATION line, 2 inconclusive (timeout/OOM/unwinding bound/vacuous cover/non-reproducing counterexample). Known findings: known_findings.json.",
+ "notes": "Exit codes of every command: 0 held, 1 VIOLATION line, 2 inconclusive (timeout/OOM/unwinding bound/vacuous cover/non-reproducing counterexample/code reaching a construct Kani cannot model). Known findings: known_findings.json.",
 }
 for pid in ALL:
     if pid in CLAIMS:
